@@ -487,6 +487,10 @@ func buildView(t *Ty, v *Val) (view.View, error) {
 			els := make([]view.BasicView, len(v.Seq))
 			for i, e := range v.Seq {
 				els[i] = basicView(t.Elem, e)
+				if i%2 == 1 {
+					// a caller-defined BasicView (typed wrappers such as `type Slot Uint64View`)
+					els[i] = wrapBasic{els[i]}
+				}
 			}
 			if t.Kind == "vec" {
 				return t.Def().(*view.BasicVectorTypeDef).FromElements(els...)
@@ -766,4 +770,59 @@ func wideContainers() []*Ty {
 		out = append(out, &Ty{Kind: "cont", Fields: fs})
 	}
 	return out
+}
+
+// wrapBasic is a BasicView implemented outside the library (by delegation)
+type wrapBasic struct{ view.BasicView }
+
+// cloneTy copies a type and gives every level a FRESH type-definition object (structurally
+// identical to, but distinct from, the interned ones): values often come from an independently
+// built definition.  No shared state is touched (safe from several goroutines).
+func cloneTy(t *Ty) *Ty {
+	if t == nil {
+		return nil
+	}
+	c := &Ty{Kind: t.Kind, N: t.N, None: t.None, Elem: cloneTy(t.Elem)}
+	for _, f := range t.Fields {
+		c.Fields = append(c.Fields, cloneTy(f))
+	}
+	switch c.Kind {
+	case "u":
+		c.def = view.UintMeta(c.N)
+	case "bool":
+		c.def = view.BoolType
+	case "bytes":
+		c.def = view.SmallByteVecMeta(c.N)
+	case "root":
+		c.def = view.RootType
+	case "bitvec":
+		c.def = view.BitVectorType(c.N)
+	case "bitlist":
+		c.def = view.BitListType(c.N)
+	case "vec":
+		c.def = view.VectorType(c.Elem.def, c.N)
+	case "list":
+		c.def = view.ListType(c.Elem.def, c.N)
+	case "cont":
+		fs := make([]view.FieldDef, len(c.Fields))
+		for i, f := range c.Fields {
+			fs[i] = view.FieldDef{Name: fmt.Sprintf("f%d", i), Type: f.def}
+		}
+		c.def = view.ContainerType("C", fs)
+	case "union":
+		var opts []view.TypeDef
+		if c.None {
+			opts = append(opts, nil)
+		}
+		for _, f := range c.Fields {
+			opts = append(opts, f.def)
+		}
+		c.def = view.UnionType(opts)
+	}
+	return c
+}
+
+// buildViewFresh builds the view of v through freshly made type definitions.
+func buildViewFresh(t *Ty, v *Val) (view.View, error) {
+	return buildView(cloneTy(t), v)
 }
